@@ -34,6 +34,8 @@ def n(pid, name, rel, old, new):
 
 
 # ------------------------------------------------------------------- C02
+m('C02', 'VolumeModel: diffusive approximation also for epsilon_r == 1', MODELS,
+  "                if model.epsilon_r is None:", "                if model.epsilon_r is None or np.all(model.epsilon_r == 1.0):", 'C02.O4.eta')
 m('C02', 'amat_x: hy[iym]->hy[iy] in v1mp', CORE,
   "v1mp = ((ez[ix, iy, iz] - ez[ix, iym, iz])/hy[iym] -",
   "v1mp = ((ez[ix, iy, iz] - ez[ix, iym, iz])/hy[iy] -", 'C02.O1')
@@ -97,6 +99,17 @@ n('C02', 'VolumeModel: eta factored differently', MODELS,
   "eta = -(sfield.smu0*vol*cond + vol*smu*sfield.smu0)")
 
 # ------------------------------------------------------------------- C03
+m('C03', 'gauss_seidel_y: backward ordering from the second sweep on', CORE,
+  "    for _ in range(nu):\n\n        # Direction of Gauss-Seidel ordering; 0=forward, 1=backward\n        iback = 1-iback\n\n        # Loop over cells, keeping boundaries fixed; y-fastest",
+  "    for it in range(nu):\n\n        # Direction of Gauss-Seidel ordering; 0=forward, 1=backward\n        iback = it == 0\n\n        # Loop over cells, keeping boundaries fixed; y-fastest",
+  'C03.S7')
+n('C03', 'gauss_seidel_z: direction flag from the sweep number', CORE,
+  "    for _ in range(nu):\n\n        # Direction of Gauss-Seidel ordering; 0=forward, 1=backward\n        iback = 1-iback\n\n        # Loop over cells, keeping boundaries fixed; z-fastest",
+  "    for it in range(nu):\n\n        # Direction of Gauss-Seidel ordering; 0=forward, 1=backward\n        iback = (it + 1) % 2\n\n        # Loop over cells, keeping boundaries fixed; z-fastest")
+m('C03', 'gauss_seidel: nodes with a vanishing right-hand side skipped', CORE,
+  "                    # Solve linear system A x = b\n                    solve(amat, rhs)",
+  "                    if not np.any(rhs):\n                        continue\n                    solve(amat, rhs)",
+  'C03.S7')
 m('C03', 'gauss_seidel: sign of amat[3]', CORE,
   "amat[3] = mzyRxm/hx[ixm]    # 3,0| 3", "amat[3] = -mzyRxm/hx[ixm]    # 3,0| 3",
   'C03.S1')
@@ -338,6 +351,9 @@ n('C12', 'clean: list order', SIMS,
   "            for name in ['_misfit', '_gradient']:")
 
 # ------------------------------------------------------------------- C13
+m('C13', 'Simulation.to_dict plain: keep-list without the standard deviation', SIMS,
+  "            for key in ['synthetic', 'residual', 'weights']:\n                if key in out['survey']['data'].keys():\n                    del out['survey']['data'][key]",
+  "            keep = ['observed', '_noise_floor', '_relative_error']\n            out['survey']['data'] = {\n                k: v for k, v in out['survey']['data'].items() if k in keep}", 'C13.N4.copy')
 m('C13', 'std: noise_floor not squared', SURV,
   "std += self.noise_floor**2", "std += self.noise_floor", 'C13.N1')
 m('C13', 'std: relative error without abs of data', SURV,
@@ -381,6 +397,14 @@ n('C13', 'add_noise: in-place on a fresh local copy', SURV,
   "min_amplitude = np.array(min_amplitude, dtype=float).copy()\n                min_amplitude /= 2.0")
 
 # ------------------------------------------------------------------- C11
+m('C11', '_compute: field only stored into an empty slot', SIMS,
+  "            self._dict_efield[src][freq] = out[i][0]\n            self._dict_efield_info[src][freq] = out[i][1]",
+  "            if self._dict_efield[src][freq] is None:\n                self._dict_efield[src][freq] = out[i][0]\n            self._dict_efield_info[src][freq] = out[i][1]",
+  'C11.P2.slots')
+m('C11', '_compute: start field only if it lives on the very grid object', SIMS,
+  "                'efield': self._dict_get('efield', source, freq),",
+  "                'efield': (lambda e, g: e if e is None or e.grid is g else None)(self._dict_get('efield', source, freq), self.get_grid(source, freq)),",
+  'C11.P4.purity')
 m('C11', 'process_map: as_completed collection', MP,
   "            return list(ex.map(fn, *iterables))",
   "            from concurrent.futures import as_completed\n            futs = [ex.submit(fn, *a) for a in zip(*iterables)]\n            return [f.result() for f in as_completed(futs)]",
@@ -609,6 +633,13 @@ n('C14', 'MapResistivity: chain factor rewritten', MAPS,
   "        gradient *= -1.0/(mapped*mapped)")
 
 # ------------------------------------------------------------------- C07
+m('C07', 'get_receiver: components below 0.1 % skipped', FIELDS,
+  "        if np.any(abs(factors[i]) > 1e-10):", "        if np.any(abs(factors[i]) > 1e-3):", 'C07.AS.source')
+m('C07', 'misfit from the cached finite-data mask', SIMS,
+  "            weights = self.data['weights']\n            misfit = np.sum(weights*(residual.conj()*residual)).real/2\n            self._misfit = float(misfit.data)",
+  "            weights = self.survey.finite_data('weights')\n            residual = self.survey.finite_data('residual')\n            misfit = np.sum(weights*(residual.conj()*residual)).real/2\n            self._misfit = float(misfit)", 'C07.AS.misfit')
+m('C07', '_get_rfield: receivers after a gap are left out', SIMS,
+  "            if np.isnan(residual[i]):\n                continue", "            if np.isnan(residual[i]):\n                break", 'C07.AS.nan')
 m('C07', 'gradient: property_y <-> property_z at a chain site', SIMS,
   "                        gradient[1, ...], self.model.property_y)",
   "                        gradient[1, ...], self.model.property_z)", 'C07.CH')
@@ -674,6 +705,11 @@ m('C08', 'jtvec: multiplies by weights instead of dividing', SIMS,
   "            self.data.residual[...] = vector*self.data.weights.data", 'C08.V4')
 
 # ------------------------------------------------------------------- C09
+m('C09', '_point_vector: cell index clamped to 1', FIELDS,
+  "        ix = max(0, np.where(coo[0] < np.r_[xx, np.inf])[0][0]-1)", "        ix = max(1, np.where(coo[0] < np.r_[xx, np.inf])[0][0]-1)", 'C09.PV.linear')
+m('C09', 'Simulation.from_dict: receiver_interpolation not handed on', SIMS,
+  "        cls_inp['receiver_interpolation'] = inp.pop(\n                'receiver_interpolation', 'cubic')",
+  "        inp.pop('receiver_interpolation', 'cubic')", 'C09.RC.options')
 m('C09', '_point_vector: upper x index weighted with ex', FIELDS,
   "        s[ix1, iy, iz] = rx*ey*ez", "        s[ix1, iy, iz] = ex*ey*ez", 'C09.PV')
 m('C09', 'get_receiver: mask uses nodes_y[0]', FIELDS,
@@ -701,6 +737,14 @@ n('C09', '_point_vector: factor order', FIELDS,
   "        s[ix1, iy, iz] = rx*ey*ez", "        s[ix1, iy, iz] = ez*rx*ey")
 
 # ------------------------------------------------------------------- C10
+m('C10', 'get_source_field: strength zero means unit source', FIELDS,
+  "    sfield.field *= source.strength", "    if source.strength != 0:\n        sfield.field *= source.strength", 'C10.SF.scaling')
+m('C10', 'Dipole: magnetic loop centred at e1 + e2', ELEC,
+  "                center = tuple(np.sum(points, 0)/2)", "                center = tuple(np.sum(points, 0))", 'C10.GE.formats')
+n('C10', 'Dipole: loop centre as the mean of the electrodes', ELEC,
+  "                center = tuple(np.sum(points, 0)/2)", "                center = tuple(points.mean(axis=0))")
+n('C10', 'Dipole: loop centre from the two rows', ELEC,
+  "                center = tuple(np.sum(points, 0)/2)", "                center = tuple(0.5*(points[0, :] + points[1, :]))")
 m('C10', '_dipole_vector: upper y index weighted with ey', FIELDS,
   "                    vfield.fx[ix, iy+1, iz] += ry*ez*x_len",
   "                    vfield.fx[ix, iy+1, iz] += ey*ez*x_len", 'C10.DV')
